@@ -10,13 +10,19 @@
 //	K i k kind     instrument i := meter k . <constructor kind 0..13> ("i<i>")
 //	A i v          measurement v on synchronous instrument i (Add / Record)
 //	R c k i1,i2    callback c registered on meter k for observable instruments i1,i2 (observes c+1, attribute cb=c)
+//	RB c k i1,i2   the same, naming an observable instrument of ANOTHER meter (accepted by the placeholder meter, rejected by
+//	               the SDK when the registration is forwarded: one error for the global error handler → status err:handled)
 //	U c            registration c . Unregister()
 //	T t            tracer handle t := otel.Tracer("t<t>")
 //	S t id [^j]    span "s<id>" started (and ended) on tracer t — from a fresh context, or under the context that
 //	               the Start of span j returned (a pre-install placeholder span or a real SDK span, any tracer)
 //	TS t j         tracer handle t := (span j).TracerProvider().Tracer("t<t>")
 //	P id           Inject through the TextMapPropagator obtained before anything was installed
+//	P id           … observed as a bit mask: 1 = traceparent written (TraceContext served it), 2 = baggage written (Baggage)
+//	PG id          the same Inject through otel.GetTextMapPropagator() obtained at call time
 //	IM IT IP       otel.SetMeterProvider(sdk) / SetTracerProvider(sdk) / SetTextMapPropagator(TraceContext)
+//	IP2            otel.SetTextMapPropagator(Baggage) — a second, different propagator (the placeholder obtained before
+//	               keeps forwarding to whichever was set FIRST; the global getter returns the one set last)
 //	XM XT XP       self-set (save/restore helper): otel.SetMeterProvider(otel.GetMeterProvider()) / …TracerProvider… /
 //	               …TextMapPropagator… — a documented no-op while the placeholder is the global value
 //	GM lvl         SetMeterProvider with a delegate whose Meter() (lvl>=1) and whose meters' constructors and
@@ -26,6 +32,11 @@
 //	N              release the installer from its gate, wait for the next gate or the end of the installation
 //	F              release gates until the installation has finished, join every pending operation
 //	Y n            yield n times
+//	OC c           OVERLAPPING collections of the delegate's two readers: reader 0 starts a
+//	               collection cycle; the first invocation of callback c parks inside the user function, before it
+//	               observes; reader 1 then runs a complete cycle (every live callback, c included); reader 0 is
+//	               released and finishes. Observed: what each reader's Observers received in its own cycle.
+//	CC n           the two readers run n cycles each, concurrently and free-running
 //	W 1            (first group only) install the recording MeterProvider with one Go type per instrument kind
 //	               (c16_rec_test.go) instead of sdk/metric + ManualReader
 //	[ … ; … ]      parallel block: the op lists separated by `;` run in goroutines released together; `]` joins
@@ -49,6 +60,7 @@ import (
 
 	"go.opentelemetry.io/otel"
 	"go.opentelemetry.io/otel/attribute"
+	"go.opentelemetry.io/otel/baggage"
 	"go.opentelemetry.io/otel/metric"
 	membedded "go.opentelemetry.io/otel/metric/embedded"
 	"go.opentelemetry.io/otel/propagation"
@@ -70,7 +82,10 @@ type cbH struct {
 	insts []int
 	reg   metric.Registration
 	count atomic.Int64
+	park  atomic.Pointer[parkReq] // armed by OC: the next invocation parks before it observes
 }
+
+type parkReq struct{ in, rel chan struct{} }
 
 type world struct {
 	mu      sync.Mutex
@@ -83,15 +98,17 @@ type world struct {
 	props   map[int]int
 	prop0   propagation.TextMapPropagator
 
-	useRec bool   // script starts with `W 1`
-	rec    *recMP // delegate with a distinct type per instrument kind
-	mp     *sdkmetric.MeterProvider
-	reader *sdkmetric.ManualReader
-	tp     *sdktrace.TracerProvider
-	exp    *tracetest.InMemoryExporter
+	useRec  bool   // script starts with `W 1`
+	rec     *recMP // delegate with a distinct type per instrument kind
+	mp      *sdkmetric.MeterProvider
+	reader  *sdkmetric.ManualReader
+	reader2 *sdkmetric.ManualReader // second reader of the SDK provider: collects only in OC / CC
+	tp      *sdktrace.TracerProvider
+	exp     *tracetest.InMemoryExporter
 
 	apiErr  atomic.Value // string
 	handled atomic.Int64
+	ocs     []string // results of the OC / CC operations, in script order
 
 	// gated installer
 	gateCh    chan string
@@ -119,7 +136,8 @@ func newWorld() *world {
 	w.prop0 = otel.GetTextMapPropagator()
 	otel.SetErrorHandler(otel.ErrorHandlerFunc(func(error) { w.handled.Add(1) }))
 	w.reader = sdkmetric.NewManualReader()
-	w.mp = sdkmetric.NewMeterProvider(sdkmetric.WithReader(w.reader))
+	w.reader2 = sdkmetric.NewManualReader()
+	w.mp = sdkmetric.NewMeterProvider(sdkmetric.WithReader(w.reader), sdkmetric.WithReader(w.reader2))
 	w.rec = newRecMP()
 	w.exp = tracetest.NewInMemoryExporter()
 	w.tp = sdktrace.NewTracerProvider(sdktrace.WithSyncer(w.exp))
@@ -359,7 +377,7 @@ func (w *world) exec(op []string) {
 			return
 		}
 		measure(h, atoi(op[2]))
-	case "R":
+	case "R", "RB":
 		c, k := atoi(op[1]), atoi(op[2])
 		h := &cbH{meter: k}
 		var objs []*instH
@@ -380,6 +398,10 @@ func (w *world) exec(op []string) {
 		attr := metric.WithAttributes(attribute.Int("cb", c))
 		f := func(_ context.Context, o metric.Observer) error {
 			h.count.Add(1)
+			if p := h.park.Swap(nil); p != nil {
+				close(p.in) // this invocation (reader 0's cycle) is now inside the user function …
+				<-p.rel     // … and stays there while reader 1 collects
+			}
 			for _, ih := range objs {
 				if ih.kind <= 10 {
 					o.ObserveInt64(ih.obj.(metric.Int64Observable), int64(c+1), attr)
@@ -457,19 +479,88 @@ func (w *world) exec(op []string) {
 			w.tracers[t] = tr
 		}
 		w.mu.Unlock()
-	case "P":
+	case "P", "PG":
 		sc := trace.NewSpanContext(trace.SpanContextConfig{
 			TraceID: trace.TraceID{1}, SpanID: trace.SpanID{2}, TraceFlags: trace.FlagsSampled, Remote: true})
 		ctx := trace.ContextWithRemoteSpanContext(context.Background(), sc)
+		if mem, err := baggage.NewMember("k", "v"); err == nil {
+			if bg, err := baggage.New(mem); err == nil {
+				ctx = baggage.ContextWithBaggage(ctx, bg)
+			}
+		}
 		car := propagation.MapCarrier{}
-		w.prop0.Inject(ctx, car)
+		if op[0] == "P" {
+			w.prop0.Inject(ctx, car)
+		} else {
+			otel.GetTextMapPropagator().Inject(ctx, car)
+		}
 		v := 0
 		if car.Get("traceparent") != "" {
-			v = 1
+			v |= 1
+		}
+		if car.Get("baggage") != "" {
+			v |= 2
 		}
 		w.mu.Lock()
 		w.props[atoi(op[1])] = v
 		w.mu.Unlock()
+	case "OC":
+		if w.active && len(w.pendIdx) > 0 {
+			// an operation that was waiting for one of the installer's locks may still be on its way: what the SDK holds
+			// at this moment is not determined by the script
+			w.ocs = append(w.ocs, "skip")
+			return
+		}
+		w.mu.Lock()
+		h := w.cbs[atoi(op[1])]
+		w.mu.Unlock()
+		p := &parkReq{in: make(chan struct{}), rel: make(chan struct{})}
+		if h != nil {
+			h.park.Store(p)
+		}
+		aDone := make(chan func() string, 1)
+		go func() { aDone <- w.cycle(0) }()
+		var obsA func() string
+		parked := false
+		select {
+		case <-p.in:
+			parked = true
+		case obsA = <-aDone: // callback c is not live: reader 0's cycle ran through
+		}
+		obsB := w.cycle(1)
+		if parked {
+			close(p.rel)
+			obsA = <-aDone
+		}
+		if h != nil {
+			h.park.Store(nil)
+		}
+		w.ocs = append(w.ocs, "A="+obsA()+"/B="+obsB()+"~0")
+	case "CC":
+		if w.active && len(w.pendIdx) > 0 {
+			w.ocs = append(w.ocs, "skip")
+			return
+		}
+		n := atoi(op[1])
+		var first [2]string
+		var differ atomic.Int64
+		var wg sync.WaitGroup
+		for rd := 0; rd < 2; rd++ {
+			wg.Add(1)
+			go func(rd int) {
+				defer wg.Done()
+				for k := 0; k < n; k++ {
+					s := w.cycle(rd)()
+					if k == 0 {
+						first[rd] = s
+					} else if s != first[rd] {
+						differ.Add(1)
+					}
+				}
+			}(rd)
+		}
+		wg.Wait()
+		w.ocs = append(w.ocs, "A="+first[0]+"/B="+first[1]+"~"+strconv.FormatInt(differ.Load(), 10))
 	case "W":
 		// handled by run() before anything else
 	case "IM":
@@ -478,6 +569,8 @@ func (w *world) exec(op []string) {
 		otel.SetTracerProvider(w.tp)
 	case "IP":
 		otel.SetTextMapPropagator(propagation.TraceContext{})
+	case "IP2":
+		otel.SetTextMapPropagator(propagation.Baggage{})
 	case "XM":
 		otel.SetMeterProvider(otel.GetMeterProvider())
 	case "XT":
@@ -493,6 +586,58 @@ func (w *world) exec(op []string) {
 	}
 }
 
+// cycle runs one collection cycle of reader rd (0 / 1) of the installed delegate — the recording delegate's or the
+// SDK's (two ManualReaders, one pipeline and one Observer per reader) — and returns a function that renders what
+// that reader received in this cycle; it is called once every overlapping cycle has finished.
+func (w *world) cycle(rd int) func() string {
+	if w.useRec {
+		obs := w.rec.collectObs(rd)
+		return func() string { return renderPoints(obs) }
+	}
+	reader := w.reader
+	if rd == 1 {
+		reader = w.reader2
+	}
+	var rm metricdata.ResourceMetrics
+	if err := reader.Collect(context.Background(), &rm); err != nil {
+		w.fail("collect%d:%v", rd, err)
+	}
+	var pts []recPoint
+	add := func(name string, set attribute.Set, v int) {
+		pts = append(pts, recPoint{inst: name, cb: cbOf(set), v: v})
+	}
+	w.mu.Lock()
+	for _, sm := range rm.ScopeMetrics {
+		for _, m := range sm.Metrics {
+			id, err := strconv.Atoi(strings.TrimPrefix(m.Name, "i"))
+			if err != nil || w.insts[id] == nil || w.insts[id].kind < 8 {
+				continue
+			}
+			switch d := m.Data.(type) {
+			case metricdata.Sum[int64]:
+				for _, dp := range d.DataPoints {
+					add(m.Name, dp.Attributes, int(dp.Value))
+				}
+			case metricdata.Sum[float64]:
+				for _, dp := range d.DataPoints {
+					add(m.Name, dp.Attributes, int(dp.Value))
+				}
+			case metricdata.Gauge[int64]:
+				for _, dp := range d.DataPoints {
+					add(m.Name, dp.Attributes, int(dp.Value))
+				}
+			case metricdata.Gauge[float64]:
+				for _, dp := range d.DataPoints {
+					add(m.Name, dp.Attributes, int(dp.Value))
+				}
+			}
+		}
+	}
+	w.mu.Unlock()
+	s := renderPts(pts)
+	return func() string { return s }
+}
+
 // predictBlock: will this operation wait for a lock the parked installer holds? Only used to choose how long the
 // harness waits before it declares the operation pending; a wrong guess costs time, never correctness.
 func (w *world) predictBlock(op []string) bool {
@@ -504,7 +649,7 @@ func (w *world) predictBlock(op []string) bool {
 		return true
 	case "K":
 		return atoi(op[2]) == w.curMeter
-	case "R":
+	case "R", "RB":
 		return atoi(op[2]) == w.curMeter
 	case "U":
 		w.mu.Lock()
@@ -834,7 +979,7 @@ func (w *world) observe() string {
 	for _, p := range w.pendIdx {
 		pend = append(pend, strconv.Itoa(p))
 	}
-	return strings.Join([]string{status, join(w.gates), join(syncs), join(obss), join(cbs), join(sps), join(ps), "pend=" + join(pend)}, " ")
+	return strings.Join([]string{status, join(w.gates), join(syncs), join(obss), join(cbs), join(sps), join(ps), "pend=" + join(pend), "oc=" + join(w.ocs)}, " ")
 }
 
 // TestVerifC16Child runs one scenario (script in C16_SCRIPT) and prints its observation.
